@@ -168,7 +168,7 @@ def gen_seq_program(seed, prof, tier="quick", mp=None, length=None):
     else:
         npid = rng.randint(2, 4)
         pool = list(PID_POOL)
-        first = rng.choice([["a", "ab"], ["ab", "a"], ["ab.c", "ab"], []])
+        first = rng.choice([["a", "ab"], ["ab", "a"], ["ab.c", "ab"], ["ab", "b"], ["b", "ab"], ["a/b", "b"], []])
         pids = list(first)
         while len(pids) < npid:
             p = rng.choice(pool)
@@ -328,6 +328,24 @@ def _obj_task_op(rng, npids, ncont):
 
 
 def gen_conc_program(seed, family="obj", tier="quick", mp=None, ntasks=None):
+    algo_family = family == "objalgo"
+    if algo_family:
+        family = "obj"
+    prog = _gen_conc_program(seed, family, tier, mp, ntasks)
+    if algo_family:
+        rng = random.Random("algo:%d" % seed)
+        for ops in [prog["setup"]] + prog["tasks"]:
+            for op in ops:
+                if op["op"] == "store" and op.get("pid") is not None and rng.random() < 0.8:
+                    op["add"] = spell(rng, rng.choice(M.OTHER_ALGOS))
+                    if rng.random() < 0.5:
+                        op["ckalgo"] = spell(rng, rng.choice(M.ALL_ALGOS))
+                        op["ck"] = rng.choice(["ok", "upper"])
+        prog["family"] = "objalgo"
+    return prog
+
+
+def _gen_conc_program(seed, family="obj", tier="quick", mp=None, ntasks=None):
     rng = rng_for(seed)
     cfg = gen_cfg(rng) if rng.random() < 0.5 else gen_cfg(rng, simple=True)
     knobs = gen_conc_knobs(rng, mp=mp, tier=tier)
